@@ -20,7 +20,7 @@ energy off by exactly three times the shear energy -> ``shear-rows-doubled``; an
 """
 import numpy as np
 
-from ..core import Violation, require, relerr, rng_for
+from ..core import Violation, require, rng_for
 
 ID = "C12"
 LEVEL = "exploration"
@@ -31,33 +31,53 @@ RULE = ("case = kind (strain | average | transpose | thermal) x dimension x plan
         "large offset, tiny) x scaling-vector class x element-size class x Poisson class x dofs per node x "
         "operator shape, all enumerated; grid, sizes in [0.3,3], E in [1e-3,1e3], gradients and offsets random "
         "per VERIF_SEED. distinct = distinct option tuple + grid; non-trivial = field/operator not identically zero")
-EXHAUSTIVE = {"quick": False, "thorough": False}
+EXHAUSTIVE = {"quick": False, "thorough": False}   # only the transpose part is enumerated (grid x dofs x operator form)
+EXPLANATION = ("A case in which the known finding 'shear-rows-doubled' is observed is recorded as violated under that one "
+               "key (and every further clause of the case is still judged, against 'D times the strain the module "
+               "returns' and 'uKu + 3 x shear energy'); it therefore never counts as held. Held cases are the strain "
+               "cases whose stated shear strain is zero (normal-only, rigid rotation, constant, diagonal single entry) "
+               "and all average / transpose / thermal cases; the floors on *_compared counters include both.")
 ASSUMPTIONS = [
     "geometry (node positions, connectivity) is taken from DomainDefinition, which C13 judges",
-    "the assembled stiffness matrix is pyMOTO's AssembleStiffness (judged in C08), as the statement says",
-    "Stress in 2D and the energy identity are evaluated on unit out-of-plane thickness only (quantifier)",
+    "the assembled stiffness matrix is pyMOTO's AssembleStiffness without boundary conditions (judged in C08), as the "
+    "statement says; the constitutive matrix is the driver's own (inverse of the isotropic compliance)",
+    "Stress in 2D and the energy identity are evaluated on unit out-of-plane thickness only (quantifier); Strain, "
+    "ElementAverage and ThermoMechanical in 2D get a random thickness in [0.3,3]",
     "Strain(voigt=False) is expected to return the tensor shear e_ij = gamma_ij/2 (its documentation); "
-    "Voigt order in 3D is xx,yy,zz,yz,zx,xy",
-    "inputs are real float64 vectors of size dofs_per_node*nnodes; Poisson ratio in [-0.5,0.49]",
-    "tol strain: 1e-12*max|u|/min(h) (B has 2^dim*dim entries <= 1/(2 h): error <= ~30 eps max|u|/h; measured <= 3e-15)",
-    "tol stress: 1e-12*max|D|*max|u|/min(h) (one more 6-term product)",
-    "tol energy: 1e-12*|u|'|K||u| (rounding bound of the quadratic form gamma_n*|u|'|K||u|, n<=1500 -> 1.7e-13; "
-    "comparisons whose tolerance exceeds 1e-6 of the energy are not counted as discriminating)",
-    "tol element average: 1e-12*max|v| (convex combination of 4/8 values with weights 2^-dim)",
-    "tol transpose: entries 1e-13*max|element matrix| (unit vectors: every entry is a copied number), dense "
-    "probes 1e-12*(|M||v|)",
-    "tol thermal equilibrium: 1e-12*max|rigid mode|*sum|x dT|*sum|f_element| (closed-form element load as scale)",
-    "tol thermal = K u_free: 1e-12*max(|K||u_free|)",
+    "Voigt order in 3D is xx,yy,zz,yz,zx,xy; the plane argument is ignored in 3D",
+    "inputs are real float64 vectors of size dofs_per_node*nnodes; Poisson ratio in [-0.5,0.49]; E in [1e-3,1e3]; "
+    "element sizes in [0.3,3]; scaling vector in [0,1] including exact zeros and 1e-9",
+    "bounds: quick grids <=4x4 / <=3x3x3 (transpose: all grids <=3x3 and <=2x2x2); thorough grids <=8x8 / <=5x5x5, one "
+    "in ten <=16x16 / <=7x7x7 (transpose: all grids <=6x6 and <=4x4x4)",
+    "the thermal load is compared with K(x) times alpha*dT*(p-p0) for a uniform temperature step dT (either sign) and "
+    "heterogeneous x; in plane strain only self-equilibrium is stated, so only that is judged there",
+    "tol strain: 1e-12*max|u|/min(h) (a row of B has <= 2*2^dim entries of size 1/(2^(dim-1) h): rounding <= ~30 eps "
+    "max|u|/h); measured worst error/tol 1.6e-3",
+    "tol stress: 1e-12*max|D|*max|u|/min(h) (one more 6-term product; own D by a 6x6 inverse, cond <= 150); measured "
+    "worst error/tol 9e-3",
+    "tol energy: 1e-12*|u|'|K||u| (rounding bound gamma_n*|u|'|K||u| of the quadratic form, n <= 1700 -> 1.9e-13); "
+    "measured worst error/tol 1.4e-3; comparisons whose tolerance exceeds 1e-6 of the energy (fields with a 1e4 rigid "
+    "offset) are made but not counted as discriminating",
+    "tol element average: 1e-12*max|v| (convex combination of 4/8 values with weights 2^-dim); measured 6e-4 of tol",
+    "tol transpose: entries 1e-13*max|element matrix| (unit vectors: every entry is a copied number; measured "
+    "difference exactly 0), dense probes 1e-12*(|M||v|) (measured 6e-16)",
+    "tol thermal equilibrium: 1e-12*max|rigid mode|*sum|x dT|*sum_k|f_element,k| (closed-form element load as "
+    "scale); measured 1.2e-4 of tol",
+    "tol thermal = K u_free: 1e-12*max(|K||u_free|); measured 9e-4 of tol",
+    "shear classification: 'equal to the stated value' and 'exactly twice the stated value' both within the strain "
+    "tolerance; a stated shear below the tolerance matches both and counts as conforming",
 ]
 FLOORS = {
-    # about half of what the unchanged tree reaches (seed 0: 1338 held, 82944 / 27648 / 769 / 4110 / 106368 / 2880 / 12065)
+    # about half of what the unchanged tree reaches
+    # quick seed 0: 1338 held, 1124 distinct, 82944 / 27648 / 769 / 4110 / 106368 / 2880 / 12065
     "quick": {"cases_held": 650, "distinct_nontrivial": 550, "strain_entries_compared": 40000,
               "stress_entries_compared": 13000, "energy_identities_discriminating": 380,
               "average_entries_compared": 2000, "transpose_entries_compared": 50000,
               "thermal_rigid_modes_checked": 1400, "thermal_entries_compared": 6000},
-    "thorough": {"cases_held": 15000, "distinct_nontrivial": 11000, "strain_entries_compared": 5500000,
+    # thorough seed 0: 29600 held, 21085 distinct, 11.08e6 / 3.69e6 / 25610 / 306936 / 8.90e6 / 76800 / 915219
+    "thorough": {"cases_held": 15000, "distinct_nontrivial": 10500, "strain_entries_compared": 5500000,
                  "stress_entries_compared": 1800000, "energy_identities_discriminating": 12800,
-                 "average_entries_compared": 150000, "transpose_entries_compared": 1500000,
+                 "average_entries_compared": 150000, "transpose_entries_compared": 4400000,
                  "thermal_rigid_modes_checked": 38000, "thermal_entries_compared": 440000},
 }
 TIMEOUT_CASE = 120
